@@ -1,6 +1,45 @@
 package bt
 
-import "encoding/binary"
+import (
+	"encoding/binary"
+	"io"
+)
+
+// readChunk bounds how much readBytesN allocates ahead of the data it has received.
+const readChunk = 64 * 1024
+
+// readBytesN reads exactly n bytes from r. The length n usually comes from an
+// untrusted length prefix, so the buffer is grown only as data actually arrives
+// instead of being allocated up front. It returns the bytes read so far, how
+// many there are, and the error from the reader (io.ErrUnexpectedEOF or io.EOF
+// on a short read, exactly as io.ReadFull reports it).
+func readBytesN(r io.Reader, n uint64) ([]byte, int, error) {
+	if n <= readChunk {
+		b := make([]byte, n)
+		read, err := io.ReadFull(r, b)
+		return b, read, err
+	}
+
+	buf := make([]byte, 0, readChunk)
+	total := 0
+	for uint64(total) < n {
+		sz := n - uint64(total)
+		if sz > readChunk {
+			sz = readChunk
+		}
+		next := make([]byte, sz)
+		read, err := io.ReadFull(r, next)
+		buf = append(buf, next[:read]...)
+		total += read
+		if err != nil {
+			if err == io.EOF && total > 0 {
+				err = io.ErrUnexpectedEOF
+			}
+			return buf, total, err
+		}
+	}
+	return buf, total, nil
+}
 
 // ReverseBytes reverses the bytes (little endian/big endian).
 // This is used when computing merkle trees in Bitcoin, for example.
